@@ -46,6 +46,10 @@ def tv(test, var: str, facts: dict):
     if isinstance(test, ast.Call) and isinstance(test.func, ast.Name) and test.func.id == "hasattr" and len(test.args) == 2:
         if unparse(test.args[0]) == var and isinstance(test.args[1], ast.Constant):
             return facts.get("hasattr:" + str(test.args[1].value))
+    if isinstance(test, ast.Compare) and len(test.ops) == 1 and isinstance(test.ops[0], (ast.Eq, ast.NotEq)) and isinstance(test.left, ast.Name) \
+            and isinstance(test.comparators[0], ast.Constant) and ("const:" + test.left.id) in facts:
+        eq = facts["const:" + test.left.id] == test.comparators[0].value
+        return eq if isinstance(test.ops[0], ast.Eq) else not eq
     if isinstance(test, (ast.Attribute, ast.Name)):
         return facts.get("truthy:" + unparse(test))
     return None
